@@ -27,8 +27,15 @@ ASSUME_CORE = [
 ]
 
 
+NOT_CLAIMED = {}
+
+
 class Spec:
     level = 'model_checking'
+    design_ref = 'DESIGN.md section 5'
+    technique = 'bounded model checking of the real C units (CBMC 6.11, SAT), symbolic inputs, environment models'
+    level_text = ''
+    level_note = ''
     trusted_base = TB_CORE
     assumptions = ASSUME_CORE
     functions = []
@@ -60,6 +67,13 @@ CORE_FUNCS = ['jwt_checker_new', 'jwt_checker_setkey', 'jwt_checker_setcb', 'jwt
 
 class C01(Spec):
     functions = CORE_FUNCS
+    design_ref = 'DESIGN.md section 5 C01, section 4'
+    level_text = ('Bounded model checking of the real verify path: for ALL tokens up to L bytes, all key descriptors, '
+                  'all configurations and all oracle answers, acceptance with a key implies exactly one consultation of '
+                  'the crypto oracle with the configured key, the header algorithm, exactly the authenticated bytes and '
+                  'exactly the decoded third segment, answered "valid". Bounded (token length), not a proof.')
+    level_note = ('Crypto primitives and JSON parsing are oracles (models M2/M3); bounds L<=12 quick / 16 thorough; '
+                  'MAC length reduced to 3 bytes on the HMAC path; see evidence.assumptions')
     explanation = ('Core layer: jwt_checker_verify()==0 with a key implies exactly one oracle consultation, with the '
                    'configured key, the header algorithm, over exactly token[0..second dot), on exactly the reference '
                    'base64url decoding of segment 3 (asymmetric) or with segment 3 equal as a whole string to '
